@@ -92,7 +92,7 @@ theorem chk_count (eq : Bool) (s : HSt) (e : ILEffect) (bare : List String) (aft
   rw [chk_eq]
   split
   · exact R.of_eq rfl
-  · have := pop_count eq s.pending (tmpsOfEffect e ++ bare) hnd x
+  · have := pop_count eq s.pending (bare ++ tmpsOfEffect e) hnd x
     cases after <;>
     · simp only [Bool.false_eq_true, ↓reduceIte, setTmps, setTmpsL_append, setTmpsL, List.append_nil, List.count_append]
       cases eq <;> simp only [R_false, R_true] at this ⊢ <;> omega
@@ -191,6 +191,13 @@ theorem cntRelE (eq : Bool) : HRelE (fun n => isHTmp n = false) (eq = false) (Cn
         = setTmpsL ((popPending s.pending (tmpsOfPures cargs ++ tmpsOfPure v)).1.map Pend.render) ++ [tmpName s.hyb] := by
       simp [Pend.sets, seqPend, vcallEffect, setTmps, isHTmp_tmpName]
     simp only [seqState, pendSets_append, pendSets, hs, List.append_nil, List.count_append]
+    cases eq <;> simp only [R_false, R_true] at this ⊢ <;> omega)
+  callx := fun s name exts cargs ret => Cnt.of_push (freshRelE.callx s name exts cargs ret) rfl (fun x hnd => by
+    have := pop_count eq s.pending (tmpsOfPures cargs) hnd x
+    have hs : (callxPend s name exts cargs ret).sets
+        = setTmpsL ((popPending s.pending (tmpsOfPures cargs)).1.map Pend.render) ++ [tmpName s.hyb] := by
+      simp [Pend.sets, callxPend, callxEffect, setTmps, isHTmp_tmpName]
+    simp only [callxState, pendSets_append, pendSets, hs, List.append_nil, List.count_append]
     cases eq <;> simp only [R_false, R_true] at this ⊢ <;> omega)
 
 end C06
